@@ -29,7 +29,7 @@ func init() {
 				"into the serve functions.",
 			NotCovered: "equality of payloads across transports, framing arithmetic, message contents; the DNSCrypt goroutines " +
 				"belong to the dnscrypt library.",
-			Rules: map[string]string{"C01-RC": "class rules (error chains, shadowed results, character classes, crossed arguments, pool constructors, array pools, loop completeness, loop-carried buffers, replacing setters, complete clones, Grow arithmetic, pooled-buffer escape, sorted searches, fresh decode targets, per-iteration objects, whole-message copies, codec guards) over the packages this property rests on", "C01-R22": "slices.Grow amounts are computed from len(s), never from cap(s) (getTCPBuffer and every other growth site)", "C01-R20": "every Unpack is bounded by the bytes read for this message (shared with C06-R1); pooled RR parts are fully re-initialised by the cloner (shared with C07-R1)", "C01-R18": "the bytes of a received datagram stay the session's own until its response was written (buffer-lifetime rules shared with C06-R2)", "C01-R19": "Android metric-domain path: the pipeline serves a clone under the shared name; the response is made a reply to the client's own message (SetReply, replaceResp) before it is written, with or without answers",
+			Rules: map[string]string{"C01-R23": "a handler that has written a response returns nil or that write's own error only (the server turns every other handler error into a second, SERVFAIL response)", "C01-RC": "class rules (error chains, shadowed results, character classes, crossed arguments, pool constructors, array pools, loop completeness, loop-carried buffers, replacing setters, complete clones, Grow arithmetic, pooled-buffer escape, sorted searches, fresh decode targets, per-iteration objects, whole-message copies, codec guards) over the packages this property rests on", "C01-R22": "slices.Grow amounts are computed from len(s), never from cap(s) (getTCPBuffer and every other growth site)", "C01-R20": "every Unpack is bounded by the bytes read for this message (shared with C06-R1); pooled RR parts are fully re-initialised by the cloner (shared with C07-R1)", "C01-R18": "the bytes of a received datagram stay the session's own until its response was written (buffer-lifetime rules shared with C06-R2)", "C01-R19": "Android metric-domain path: the pipeline serves a clone under the shared name; the response is made a reply to the client's own message (SetReply, replaceResp) before it is written, with or without answers",
 				"C01-R1": "acceptMsg decision table", "C01-R2": "serveDNS (undecodable input dropped) and serveDNSMsgInternal gate/effect tables",
 				"C01-R3": "at most one write event per ResponseWriter parameter on every path",
 				"C01-R4": "DoQ and DoH glue: one answer per request, from this request's recorder (SERVFAIL / HTTP 500 when nothing was written, HTTP 400 for undecodable requests)", "C01-R5": "defer handlePanicAndRecover dominates serving",
@@ -259,6 +259,8 @@ func runC01(c *an.Ctx) {
 	c01Writers(c)
 	c01AndroidMetric(c)
 	c01InitialMW(c)
+	c.Floor("C01-R23", 5)
+	c01ErrorAfterWrite(c)
 	// ---- R22: receive buffers are grown to the announced length (slices.Grow counts from len, not cap)
 	if n := sharedGrowArith(c, "C01-R22", "dnsserver", "bindtodevice.", "dnsmsg."); n < 1 {
 		c.Und("C01-R22", "buffer growth", token.NoPos, "no slices.Grow call found (anchor: getTCPBuffer)")
@@ -1396,4 +1398,141 @@ func c01InitialMW(c *an.Ctx) {
 			return ""
 		},
 	})
+}
+
+// c01ErrorAfterWrite is the "one response" rule for handlers that answer by
+// themselves: the server writes a SERVFAIL whenever the handler chain returns
+// an error (serveDNSMsgInternal), so a handler that has already written a
+// response must not return an error other than the error of that write.  For
+// every WriteMsg call in the request path, every return that the call can reach
+// returns nil or a value built from the write's own error only (wrapped with
+// fmt.Errorf / errors.Annotate / errors.WithDeferred); an error that was
+// computed before the write and is still returned after it yields a second
+// response with the same ID.
+func c01ErrorAfterWrite(c *an.Ctx) {
+	errT := types.Universe.Lookup("error").Type()
+	n := 0
+	for _, fn := range c.AllFns {
+		if fn.Blocks == nil || c.IsTestFile(fn.Pos()) {
+			continue
+		}
+		k := an.FnKey(fn)
+		if !(strings.HasPrefix(k, "dnssvc") || strings.HasPrefix(k, "ecscache.") || strings.HasPrefix(k, "dnsserver/cache.") || strings.HasPrefix(k, "dnsserver/ratelimit.")) {
+			continue
+		}
+		res := fn.Signature.Results()
+		if res.Len() == 0 || !types.Identical(res.At(res.Len()-1).Type(), errT) {
+			continue
+		}
+		for _, call := range an.Calls(fn) {
+			cc := call.Common()
+			if !cc.IsInvoke() || cc.Method.Name() != "WriteMsg" {
+				continue
+			}
+			if _, isDefer := call.(*ssa.Defer); isDefer {
+				continue
+			}
+			w, ok := call.(*ssa.Call)
+			if !ok {
+				continue
+			}
+			n++
+			c.Analysed(k)
+			bad := ""
+			// is v built from the write's error (and constants) only?
+			var fromWrite func(v ssa.Value, d int) bool
+			seen := map[ssa.Value]bool{}
+			fromWrite = func(v ssa.Value, d int) bool {
+				if d > 20 {
+					return false
+				}
+				if an.IsNilConst(v) || v == ssa.Value(w) {
+					return true
+				}
+				if seen[v] {
+					return true // a cycle through a result cell adds nothing new
+				}
+				seen[v] = true
+				switch x := v.(type) {
+				case *ssa.Const:
+					return true
+				case *ssa.Phi:
+					for _, e := range x.Edges {
+						if !fromWrite(e, d+1) {
+							return false
+						}
+					}
+					return true
+				case *ssa.MakeInterface:
+					return !types.Implements(x.X.Type(), errT.Underlying().(*types.Interface)) || fromWrite(x.X, d+1)
+				case *ssa.ChangeInterface:
+					return fromWrite(x.X, d+1)
+				case *ssa.Call:
+					// a wrapper: all its error-typed arguments (also inside the variadic slice) come from the write
+					okAll := true
+					var args []ssa.Value
+					for _, a := range x.Call.Args {
+						args = append(args, a)
+						if sl, isSl := a.(*ssa.Slice); isSl {
+							if arr, isArr := sl.X.(*ssa.Alloc); isArr && arr.Referrers() != nil {
+								for _, r := range *arr.Referrers() {
+									if ia, isIA := r.(*ssa.IndexAddr); isIA && ia.Referrers() != nil {
+										for _, rr := range *ia.Referrers() {
+											if st, isSt := rr.(*ssa.Store); isSt {
+												args = append(args, st.Val)
+											}
+										}
+									}
+								}
+							}
+						}
+					}
+					for _, a := range args {
+						at := a.Type()
+						if mi, isMI := a.(*ssa.MakeInterface); isMI {
+							at = mi.X.Type()
+						}
+						if types.Identical(a.Type(), errT) || types.Implements(at, errT.Underlying().(*types.Interface)) {
+							if !fromWrite(a, d+1) {
+								okAll = false
+							}
+						}
+					}
+					return okAll
+				case *ssa.UnOp:
+					if x.Op == token.MUL {
+						// a named result kept in a cell: the stores that the write can reach, or the write's own
+						if al, isAl := x.X.(*ssa.Alloc); isAl {
+							any := false
+							for _, st := range an.Stores(al) {
+								if st.Val == ssa.Value(w) || an.CanReach(w, st) {
+									any = true
+									if !fromWrite(st.Val, d+1) {
+										return false
+									}
+								}
+							}
+							return any
+						}
+					}
+				}
+				return false
+			}
+			for _, r := range an.Returns(fn) {
+				if !an.CanReach(w, r) || len(r.Results) == 0 {
+					continue
+				}
+				v := r.Results[len(r.Results)-1]
+				if !fromWrite(v, 0) {
+					bad = "a return after the write yields an error that does not come from the write"
+				}
+			}
+			c.Check(bad == "", "C01-R23", k+" returns no foreign error after it has written a response", call.Pos(),
+				"after WriteMsg only nil or the write's own error is returned",
+				bad+": the server answers every handler error with SERVFAIL, so the client receives two responses with the same ID")
+		}
+	}
+	if n < 5 {
+		c.Und("C01-R23", "handlers that write responses", token.NoPos, "only %d WriteMsg calls found in the request path", n)
+	}
 }
